@@ -100,9 +100,44 @@ def replay_events(path):
     return core.rv(["lin", "--cases", cpath])
 
 
+def name_runs(o, tier, seed, only=None):
+    """The names of compiled rows: every program of NameGen.tla (up to three constraints that compile to none, one
+    or two rows, under names that collide with each other and with generated suffixes; longer lists by simulation),
+    judged by NameTrace.tla."""
+    meta = {}
+    if only:
+        cases = [only]
+    else:
+        cases, g, d = core.gen_cases(SPEC_DIR, "NameGen.tla", "NameGen.cfg", "namegen", workers=4)
+        meta["names"] = {"cases": len(cases), "gen_states": d, "gen_transitions": g}
+        nsim = 60 if tier == "quick" else 3000
+        more, g2, d2 = core.gen_cases(SPEC_DIR, "NameGen.tla", "NameSim4.cfg", "namesim", workers=1,
+                                      extra=["-simulate", f"num={nsim}", "-depth", "7", "-seed", str(seed)], cache_key=[nsim, seed])
+        meta["names:longer"] = {"cases": len(more), "simulated_behaviours": nsim}
+        if tier == "quick":
+            k = max(1, len(cases) // 1200)
+            cases = cases[seed % k::k]
+        cases = cases + more
+        for i, c in enumerate(cases):
+            c["id"] = f"names{i}"
+    events = core.rv_parallel("rownames", cases, "C08-names", procs=6)
+    v = core.validate(SPEC_DIR, "NameTrace.tla", "NameTrace.cfg", events, "C08", "C08-names", chunks=6)
+    byid = {e["id"]: e for e in events}
+    for r in v.rejects:
+        ev = byid.get(r[2], {})
+        o.violation(f"names:{r[3]}:{ev.get('text')}", {k: ev.get(k) for k in ("id", "text", "cons", "rownames")},
+                    f"{r[3]}\n{ev.get('text')}\n--- compiled row names: {ev.get('rownames')}")
+    meta["names:validated"] = {"cases": len(v.stats), "with_generated_suffixes": sum(1 for s_ in v.stats if s_[4] > 0)}
+    return meta
+
+
 def check(prop, tier, seed, replay=None):
     o = core.Outcome(prop, tier, seed)
-    if replay:
+    if replay and prop == "C08" and "rownames" in json.load(open(replay)):
+        core.build_harness()
+        events, meta = [], name_runs(o, tier, seed, json.load(open(replay)))
+        v = core.Val()
+    elif replay:
         events = replay_events(replay)
         for e in events:
             annotate(e, "thorough")
@@ -120,6 +155,10 @@ def check(prop, tier, seed, replay=None):
     for e in events:
         if e.get("out") == "panic":
             o.violation(f"panic:{src_hash(e)}", e, f"Linearizer panicked: {e.get('why')}")
+    names_meta = {}
+    if prop == "C08" and not replay:
+        names_meta = name_runs(o, tier, seed)
+        meta.update(names_meta)
     stats = {s[1]: s for s in v.stats}
     nontrivial = 0
     if prop == "C08":
